@@ -364,9 +364,15 @@ func (sc *SubCache[EntityT, ExcerptT, CacheT]) Resolve(id entity.Id) (CacheT, er
 		return *new(CacheT), err
 	}
 
-	cached = sc.makeCached(e, sc.entityUpdated)
-
 	sc.mu.Lock()
+	if alreadyCached, ok := sc.cached[id]; ok {
+		// another goroutine loaded the same entity in the meantime: there must be
+		// only one instance, or their edits would overwrite each other.
+		sc.lru.Get(id)
+		sc.mu.Unlock()
+		return alreadyCached, nil
+	}
+	cached = sc.makeCached(e, sc.entityUpdated)
 	sc.cached[id] = cached
 	sc.lru.Add(id)
 	sc.mu.Unlock()
